@@ -235,7 +235,10 @@ func setEnv(tables any) {
 
 func history(args []any) any {
 	setEnv(args[0])
-	ops := args[1].([]any)
+	return historyNoEnv(args[1].([]any))
+}
+
+func historyNoEnv(ops []any) any {
 	p, err := bkl.New()
 	if err != nil {
 		return []any{"newfailed"}
@@ -298,6 +301,30 @@ func history(args []any) any {
 		}
 	}
 	return outs
+}
+
+// concurrent runs the same history from n goroutines at once (fresh Parser each) and returns
+// every result; the environment is set once, before the goroutines start.
+func concurrent(args []any) any {
+	setEnv(args[0])
+	n := args[2].(int)
+	res := make([]any, n)
+	done := make(chan int, n)
+	for i := 0; i < n; i++ {
+		go func(i int) {
+			defer func() {
+				if e := recover(); e != nil {
+					res[i] = []any{"panic", fmt.Sprintf("%v", e)}
+				}
+				done <- i
+			}()
+			res[i] = historyNoEnv(copyAny(args[1]).([]any))
+		}(i)
+	}
+	for i := 0; i < n; i++ {
+		<-done
+	}
+	return res
 }
 
 func yamlParse(args []any) any {
@@ -383,6 +410,8 @@ func runCase(c any) (res any) {
 	switch l[0].(string) {
 	case "history":
 		return history(l[1:])
+	case "concurrent":
+		return concurrent(l[1:])
 	case "yaml":
 		return yamlParse(l[1:])
 	case "enc":
